@@ -171,9 +171,12 @@ def _substitute_original_strings(original_source: str, new_source: str) -> str:
             core.is_valid_python(new_formatting)
             and core.match_template(core.parse(new_formatting), template)
         ):
-            most_common_original_formatting = collections.Counter(original_formattings).most_common(
-                1
-            )[0][0]
+            # Count the occurrences in the original source (a list, in source order), not the set of
+            # distinct formattings: in a set every count is 1 and the "most common" one would be
+            # whichever the set yields first, which changes with the string hash seed.
+            most_common_original_formatting = collections.Counter(
+                original_string_formattings[node.value]
+            ).most_common(1)[0][0]
         else:
             continue
 
@@ -226,12 +229,14 @@ def _substitute_original_fstrings(original_source: str, new_source: str) -> str:
         str: new_source, but with consistent string formattings as in original_source
     """
     original_ast = core.parse(original_source)
-    original_string_formattings = collections.defaultdict(set)
+    # Lists in source order (not sets): the most common formatting is counted below, and ties
+    # must not be broken by the iteration order of a set of strings (it follows the hash seed).
+    original_string_formattings = collections.defaultdict(list)
     for node in core.walk(original_ast, ast.JoinedStr):
         code = core.get_code(node, original_source)
         unparsed_code = core.unparse(node)
         if core.is_valid_python(code):
-            original_string_formattings[unparsed_code].add(code)
+            original_string_formattings[unparsed_code].append(code)
 
     replacements = {}
     new_ast = core.parse(new_source)
